@@ -42,6 +42,8 @@ type Operand struct {
 	Sym   string
 	Name  string // FP name
 	Raw   string
+	Index string // index register of an indexed memory operand off(base)(index*scale)
+	Scale int64
 }
 
 type Instr struct {
@@ -93,6 +95,8 @@ type DataSym struct {
 }
 
 type AsmUnit struct {
+	Rel      string // module-relative package path (defaults to Pkg)
+	Pkg      string
 	Arch     string
 	Routines []*Routine
 	Data     map[string]*DataSym // by name; identical redefinitions across files are merged and checked
@@ -107,11 +111,15 @@ var reHex = regexp.MustCompile(`^\t0x[0-9a-f]+((?: [0-9a-f]{2})+) `)
 
 // LoadAsm assembles and parses all .s files of <repo>/sm4 for arch.
 func LoadAsm(repo, arch string) (*AsmUnit, error) {
-	key := repo + "|" + arch
+	return LoadAsmDir(filepath.Join(repo, "sm4"), "sm4", arch)
+}
+
+// LoadAsmDir assembles and parses all .s files of one package directory.
+func LoadAsmDir(dir, pkgName, arch string) (*AsmUnit, error) {
+	key := dir + "|" + arch
 	if u, ok := asmCache[key]; ok {
 		return u, nil
 	}
-	dir := filepath.Join(repo, "sm4")
 	ents, err := os.ReadDir(dir)
 	if err != nil {
 		return nil, err
@@ -121,7 +129,7 @@ func LoadAsm(repo, arch string) (*AsmUnit, error) {
 		return nil, fmt.Errorf("go env GOROOT: %v", err)
 	}
 	inc := filepath.Join(strings.TrimSpace(string(goroot)), "pkg", "include")
-	u := &AsmUnit{Arch: arch, Data: map[string]*DataSym{}}
+	u := &AsmUnit{Arch: arch, Data: map[string]*DataSym{}, Pkg: pkgName}
 	included := map[string]bool{}
 	var files []string
 	for _, e := range ents {
@@ -148,7 +156,7 @@ func LoadAsm(repo, arch string) (*AsmUnit, error) {
 		if included[n] {
 			continue // assembled as part of the files that include it
 		}
-		cmd := exec.Command("go", "tool", "asm", "-S", "-p", "sm4", "-I", inc, "-o", filepath.Join(tmp, "x.o"), n)
+		cmd := exec.Command("go", "tool", "asm", "-S", "-p", pkgName, "-I", inc, "-o", filepath.Join(tmp, "x.o"), n)
 		cmd.Dir = dir
 		cmd.Env = append(os.Environ(), "GOARCH="+arch, "GOOS=linux")
 		var out, errb bytes.Buffer
@@ -185,7 +193,7 @@ func (u *AsmUnit) parseListing(file, text string) error {
 			cur, curData = nil, nil
 			name := m[1]
 			if m[2] == "STEXT" {
-				cur = &Routine{Arch: u.Arch, File: file, Name: strings.TrimPrefix(name, "sm4."), pcIndex: map[int]int{}}
+				cur = &Routine{Arch: u.Arch, File: file, Name: strings.TrimPrefix(name, u.Pkg+"."), pcIndex: map[int]int{}}
 				if am := regexp.MustCompile(`args=0x([0-9a-f]+)`).FindStringSubmatch(m[3]); am != nil {
 					v, _ := strconv.ParseInt(am[1], 16, 64)
 					cur.ArgSize = v
@@ -329,6 +337,7 @@ func init() {
 var reVecAmd = regexp.MustCompile(`^([XYZ])(\d+)$`)
 var reMask = regexp.MustCompile(`^K(\d)$`)
 var reMem = regexp.MustCompile(`^(-?\d+)?\(([A-Z0-9]+)\)$`)
+var reMemIdx = regexp.MustCompile(`^(-?\d+)?\(([A-Z0-9]+)\)\(([A-Z0-9]+)\*(\d)\)$`)
 var reFP = regexp.MustCompile(`^([A-Za-z_0-9]+)(?:\+(-?\d+))?\(FP\)$`)
 var reSym = regexp.MustCompile(`^(\$)?([A-Za-z_0-9.]+)(<>)?(?:\+(\d+))?\(SB\)$`)
 var reArmVec = regexp.MustCompile(`^V(\d+)\.([BHSDQ])(\d+)$`)
@@ -420,6 +429,20 @@ func parseOperands(arch, op, s string) ([]Operand, error) {
 				off, _ = strconv.ParseInt(m[4], 10, 64)
 			}
 			out = append(out, Operand{Kind: k, Sym: m[2], Off: off, Raw: a})
+			continue
+		}
+		if m := reMemIdx.FindStringSubmatch(a); m != nil {
+			off := int64(0)
+			if m[1] != "" {
+				off, _ = strconv.ParseInt(m[1], 10, 64)
+			}
+			rb, ok1 := parseReg(arch, m[2])
+			ri, ok2 := parseReg(arch, m[3])
+			if !ok1 || !ok2 {
+				return nil, fmt.Errorf("bad indexed operand %q", a)
+			}
+			sc, _ := strconv.ParseInt(m[4], 10, 64)
+			out = append(out, Operand{Kind: OMem, Reg: rb.Reg, Off: off, Index: ri.Reg, Scale: sc, Raw: a})
 			continue
 		}
 		if m := reMem.FindStringSubmatch(a); m != nil {
@@ -645,9 +668,9 @@ func (u *AsmUnit) BindDecls(p *Prog) error {
 	if sizes == nil {
 		return fmt.Errorf("no sizes for %s", u.Arch)
 	}
-	pk := p.Pkgs["sm4"]
+	pk := p.Pkgs[u.PkgRel()]
 	if pk == nil {
-		return fmt.Errorf("package sm4 not loaded")
+		return fmt.Errorf("package %s not loaded", u.PkgRel())
 	}
 	for _, r := range u.Routines {
 		obj := pk.Types.Scope().Lookup(r.Name)
@@ -655,9 +678,9 @@ func (u *AsmUnit) BindDecls(p *Prog) error {
 		if !ok {
 			continue
 		}
-		sfn := p.Func("sm4." + r.Name)
+		sfn := p.Func(u.PkgRel() + "." + r.Name)
 		if sfn != nil && len(sfn.Blocks) > 0 {
-			return fmt.Errorf("sm4.%s has both a Go body and an assembler TEXT symbol", r.Name)
+			return fmt.Errorf("%s.%s has both a Go body and an assembler TEXT symbol", u.PkgRel(), r.Name)
 		}
 		r.HasDecl = true
 		sig := fn.Type().(*types.Signature)
@@ -702,7 +725,7 @@ func (u *AsmUnit) BindDecls(p *Prog) error {
 	}
 	// a body-less Go function without a TEXT symbol for this arch is a link error; report it
 	for _, fn := range p.RepoFuncs() {
-		if fn.Pkg != nil && shortPkg(fn.Pkg.Pkg.Path()) == "sm4" && len(fn.Blocks) == 0 && fn.Synthetic == "" && fn.Parent() == nil {
+		if fn.Pkg != nil && shortPkg(fn.Pkg.Pkg.Path()) == u.PkgRel() && len(fn.Blocks) == 0 && fn.Synthetic == "" && fn.Parent() == nil {
 			found := false
 			for _, r := range u.Routines {
 				if r.Name == fn.Name() {
@@ -738,4 +761,12 @@ func (u *AsmUnit) Routine(name string) *Routine {
 		}
 	}
 	return nil
+}
+
+// PkgRel is the module-relative package path the routines belong to.
+func (u *AsmUnit) PkgRel() string {
+	if u.Rel != "" {
+		return u.Rel
+	}
+	return u.Pkg
 }
